@@ -179,6 +179,8 @@ where
 
         // Apply rewrites, then check hooks, then check limits, then check if saturated.
         let progress = apply_rewrites(&mut self.egraph, rewrites);
+        // a hook may change the e-graph too: the rules have to be tried on its result before the run can count as saturated.
+        let before_hooks = (!hooks.is_empty()).then(|| self.egraph.progress());
         result = result
             .and_then(|_| {
                 hooks
@@ -186,6 +188,7 @@ where
                     .try_for_each(|hook| hook(self).map_err(|err| StopReason::Other(err)))
             })
             .and_then(|_| self.check_limits());
+        let progress = progress || before_hooks.is_some_and(|p| p != self.egraph.progress());
 
         if !progress {
             result = result.and_then(|_| Err(StopReason::Saturated));
